@@ -21,17 +21,20 @@ from ..fsutil import DIR, Scratch, materialise, snap
 from ..progx import name_tokens
 
 XA = ("import os\n\n\ndef f(p, q=1):\n    t = p + q\n    return t * 2\n\n\nclass C:\n    field = 3\n\n    def m(self, z):\n        loc = z + self.field\n        return loc\n\n\n"
-      "v = f(1)\nw = len(str(v)) + C().m(2)\n")
+      "v = f(1)\nw = len(str(v)) + C().m(2)\nsq = [i * i for i in range(3)]\ndc = {k: k + 1 for k in sq}\ng = sum(e for e in sq if e)\n"
+      "\n\nclass Part:\n    size = 1\n\n\nclass Holder:\n    def __init__(self):\n        self.part = Part()\n\n    def work(self, n):\n        return n + self.part.size\n")
 XB = "import xa\nfrom xa import f, C\n\nr = xa.f(2, q=3) + f(4)\nc = C()\nc.field = 9\nprint(r, c.field, c.m(1), xa.v)\n"
 
 PROJECTS = {
     "plain": {"files": {"xa.py": XA, "xb.py": XB}, "prefs": {}, "sibling": {}},
-    "external": {"files": {"xa.py": "import xlib\nfrom xlib import helper, K\n\n\ndef f(p):\n    return helper(p) + xlib.LV + K().attr\n\n\nv = f(1)\n",
+    "external": {"files": {"xa.py": "import xlib\nfrom xlib import helper, K\n\n\ndef f(p):\n    return helper(p) + xlib.LV + K().attr\n\n\nv = f(1)\n"
+                                    "\n\nclass Holder:\n    def __init__(self):\n        self.part = K()\n\n    def work(self, n):\n        return n + self.part.attr\n",
                            "xb.py": "import xa\nimport xlib\nprint(xa.f(2), xlib.helper(3), xa.v)\n"},
                  "prefs": {"python_path": ["../xext"]},
                  "sibling": {"xlib.py": "LV = 5\n\n\ndef helper(x):\n    return x + LV\n\n\nclass K:\n    attr = 1\n"}},
-    "ignored": {"files": {"xa.py": "import xold.legacy\nfrom xold.legacy import old_fn\nfrom xgen.a_pb2 import msg\n\n\ndef f(p):\n    return old_fn(p) + xold.legacy.old_fn(1) + msg\n\n\nshared = f(1)\n",
-                          "xold": DIR, "xold/__init__.py": "", "xold/legacy.py": "def old_fn(x):\n    return x\n\n\nimport xa\nuse = xa.shared\n",
+    "ignored": {"files": {"xa.py": "import xold.legacy\nfrom xold.legacy import old_fn\nfrom xgen.a_pb2 import msg\n\n\ndef f(p):\n    return old_fn(p) + xold.legacy.old_fn(1) + msg\n\n\nshared = f(1)\n"
+                                   "\n\nclass Holder:\n    def __init__(self):\n        self.part = xold.legacy.OldPart()\n\n    def work(self, n):\n        return n + self.part.size\n",
+                          "xold": DIR, "xold/__init__.py": "", "xold/legacy.py": "def old_fn(x):\n    return x\n\n\nclass OldPart:\n    size = 2\n\n\nimport xa\nuse = xa.shared\n",
                           "xgen": DIR, "xgen/__init__.py": "", "xgen/a_pb2.py": "import xa\nmsg = 1\nref = xa.shared\n",
                           "xgen/sub": DIR, "xgen/sub/__init__.py": "", "xgen/sub/b_pb2.py": "import xa\nmsg2 = xa.shared\n",
                           "xb.py": "import xa\nprint(xa.shared, xa.f(2))\n"},
@@ -42,6 +45,14 @@ for _spec in PROJECTS.values():
     _spec["files"]["xdest"] = DIR
     _spec["files"]["xdest/__init__.py"] = ""
 IGNORED_PREFIXES = {"ignored": ["xold/", "xold", "xgen/a_pb2.py", "xgen/sub/b_pb2.py"]}
+
+
+def move_method(p, r, o, e, res):
+    from rope.base import exceptions
+    mover = move.create_move(p, r, o)
+    if not isinstance(mover, move.MoveMethod):
+        raise exceptions.RefactoringError("not a method")
+    return mover.get_changes("part", "zz_moved", resources=res)
 
 
 def kinds():
@@ -64,6 +75,7 @@ def kinds():
         "local-to-field": lambda p, r, o, e, res: localtofield.LocalToField(p, r, o).get_changes(),
         "method-object": lambda p, r, o, e, res: method_object.MethodObject(p, r, o).get_changes(classname="ZzCls"),
         "use-function": lambda p, r, o, e, res: usefunction.UseFunction(p, r, o).get_changes(resources=res),
+        "move-method": move_method,
         "multiproject-rename": lambda p, r, o, e, res: multiproject.MultiProjectRefactoring(rename.Rename, [])(p, r, o).get_all_changes("zz_new"),
     }
     return K
